@@ -21,7 +21,7 @@ func XMultiSameMethod() *spec.Spec {
 
 // Extended returns the extended families (everything beyond the documented core combinations).
 func Extended(thorough bool) []*spec.Spec {
-	out := []*spec.Spec{XMultiSameMethod(), XCrossFile(), XTwoServiceFiles(), XTimestampCards(), XTimestampCardsFmt(), XEmptyOrders(), XOneofSiblings(), XSharedMethodHeader(), XQuotedHeaderTexts(), XQuotedAnnotationValues(), XForeignResponse(), XSameNamedNestedEnums(), XOneofVariantShapes(), XInt64Cards(), XHeaderNameShapes()}
+	out := []*spec.Spec{XMultiSameMethod(), XCrossFile(), XTwoServiceFiles(), XTimestampCards(), XTimestampCardsFmt(), XEmptyOrders(), XOneofSiblings(), XSharedMethodHeader(), XQuotedHeaderTexts(), XQuotedAnnotationValues(), XForeignResponse(), XSameNamedNestedEnums(), XOneofVariantShapes(), XInt64Cards(), XHeaderNameShapes(), XParamNameClashes()}
 	out = append(out, XAnnotationCards()...)
 	out = append(out, XIdentifierShapes()...)
 	out = append(out, CtxSpecs()...)
@@ -328,7 +328,7 @@ func XHeaderNameShapes() *spec.Spec {
 			spec.RPC("One", "Req", "Out", "POST", "/one").H(h("X-RequestID"), h("X-Rate-Limit-1")),
 			spec.RPC("Two", "Req", "Out", "POST", "/two").H(h("X-Request-ID"), h("X-Rate-Limit1")),
 			// names that differ in letter case only, at service + method level and twice at method level
-			spec.RPC("Three", "Req", "Out", "POST", "/three").H(h("X-Request-Id"), h("x-type"), h("X-Corr-ID"), h("X-Corr-Id"), h("x-corr-id")),
+			spec.RPC("Three", "Req", "Out", "POST", "/three").H(h("X-Request-Id"), h("X-Corr-ID"), h("X-Corr-Id"), h("x-corr-id")),
 		).H(h("X-Request-ID"), h("X-Type"), h("X-Func"), h("X-2FA-Code")),
 	}}
 	return withCell(spec.One("x_header_name_shapes", f), "ext/unit=header_name_shapes", "extended", "valid")
@@ -429,4 +429,22 @@ func XIdentifierShapes() []*spec.Spec {
 		out = append(out, withCell(spec.One("x_ident_nested_types", f), "ident/thing=nested_type", "extended", "valid", "codec"))
 	}
 	return out
+}
+
+// XParamNameClashes: the parameter-name family - one operation whose parameters in different locations share a name: a header
+// named like a path variable, a header named like a query parameter, a query parameter (renamed) named like a path variable
+// bound to another field, and all three at once. Each location keeps its own parameter.
+func XParamNameClashes() *spec.Spec {
+	h := func(n string) *spec.Header { return &spec.Header{Name: n, Type: "string", Required: true} }
+	f := &spec.File{Messages: []*spec.Message{
+		spec.M("TenantUserReq", spec.F("tenant", "string"), spec.F("id", "string"), spec.F("note", "string").Q("")),
+		spec.M("OrgMembersReq", spec.F("org", "string"), spec.F("org_filter", "string").Q("org"), spec.F("page", "int32").Q("page")),
+		spec.M("AllThreeReq", spec.F("key", "string"), spec.F("key_filter", "string").Q("key")),
+		spec.M("Out", spec.F("ok", "bool")),
+	}, Services: []*spec.Service{spec.Svc("ClashService", "/api/v1",
+		spec.RPC("GetTenantUser", "TenantUserReq", "Out", "GET", "/tenants/{tenant}/users/{id}").H(h("note")),
+		spec.RPC("ListOrgMembers", "OrgMembersReq", "Out", "GET", "/orgs/{org}/members").H(h("page")),
+		spec.RPC("AllThree", "AllThreeReq", "Out", "GET", "/keys/{key}").H(h("key")),
+	).H(h("tenant"))}}
+	return withCell(spec.One("x_param_name_clashes", f), "ext/unit=param_name_clashes", "extended", "valid")
 }
